@@ -21,6 +21,12 @@ func probe() {
 		if len(os.Args) > 5 {
 			fmt.Println("validate:", api.ValidateFile(os.Args[4], nil))
 		}
+	case "formu": // like form, with a temporary config dir holding the user font Roboto-Regular
+		d, _ := os.MkdirTemp("", "bmformwm-conf-")
+		defer os.RemoveAll(d)
+		fmt.Println("config:", api.EnsureDefaultConfigAt(d))
+		fmt.Println("install:", api.InstallFonts([]string{repoPath("pkg/testdata/fonts/Roboto-Regular.ttf")}))
+		fallthrough
 	case "form":
 		fmt.Println("create:", api.CreateFile("", os.Args[3], os.Args[4], nil))
 		fmt.Println("export:", api.ExportFormFile(os.Args[4], os.Args[5], nil))
